@@ -56,6 +56,8 @@ def gen_case(rng, tier):
             op['expr'] = {'kind': 'path', 'path': rng.choice(STRUCT_PATHS)}
         ops.append(op)
     cfg = {'spec': spec, 'xml': xml, 'facts': facts, 'trees': trees}
+    if rng.random() < 0.25:
+        cfg['fresh_proxy'] = True       # every operation gets a new proxy object of the same schema
     if rng.random() < 0.15:
         # the schema object is created unbuilt and is built in the middle of the history (same proxy object)
         cfg['late_build'] = rng.randrange(0, max(1, nops - 1))
@@ -267,7 +269,10 @@ def run_case(case, world):
         shape.append('%s|%s|%s' % (form, sk, op['expr']['kind']))
         stats['evaluations'] += 1
         try:
-            res = evaluate(text, tree, proxies[sk], op.get('via', 'select'))
+            proxy_ = proxies[sk]
+            if cfg.get('fresh_proxy') and sk is not None and (built[0] or sk != 'A'):
+                proxy_ = XMLSchemaProxy(schemas[sk])        # another proxy object for the same schema
+            res = evaluate(text, tree, proxy_, op.get('via', 'select'))
             items = res if isinstance(res, list) else [res]
             outcome = ['ok', canon_nodes(res, tree['base']), [type(x).__name__ for x in items]]
         except Exception as e:
